@@ -62,8 +62,11 @@ def check_no_clobber(repo, rep, rule='C15.V1'):
     # both storage entities use it
     for cname in ('StorageAE', 'ClientStorageAE'):
         cls = repo.cls('__init__', cname)
-        gf = cls.methods.get('get_file')
-        ok = gf is not None and '_get_storage_file(context, command_set, self.storage_dir)' in norm(gf.node)
+        gf = cls.find_method('get_file')       # own method or inherited (e.g. from a storage mix-in placed before the AE base)
+        ok = False
+        if gf is not None and gf.module.name == '__init__' and len(gf.params) == 3:
+            want = '_get_storage_file(%s, %s, self.storage_dir)' % (gf.params[1], gf.params[2])
+            ok = any(isinstance(n_, ast.Return) and n_.value is not None and norm(n_.value) == want for n_ in ast.walk(gf.node))
         rep.check(ok, rule, '__init__:%s.get_file' % cname, cls.loc(), 'stores through _get_storage_file in its directory',
                   '%s.get_file does not delegate to _get_storage_file' % cname)
 
